@@ -106,7 +106,7 @@ def check_case(case):
 
 @st.composite
 def cases(draw, switches):
-    c = draw(full.full_programs(switches, max_lines=6, operand_depth=2))
+    c = draw(full.full_programs(switches, max_lines=6, operand_depth=2, temp_bias=draw(st.sampled_from([0, 3, 6]))))
     c["options"] = {"initialize_vars": draw(st.booleans())}
     if draw(st.integers(0, 3)) == 0:
         c["options"]["default_str_storage"] = 80
